@@ -12,7 +12,8 @@ LEAN_PROPS = "Litep2pVerif.Props.C10"
 THEOREMS = ["remembered_only_if", "supported_implies_parse", "store_bounded", "evict_min", "rescore_exact",
             "dial_result_rescores_used_address", "rediscovery_keeps_score", "dial_order",
             "listen_address_roundtrip", "listener_binds_only_sockets", "reported_dialable_and_local", "local_dial_sound",
-            "lookup_respects_dns_type", "public_addresses_name_local", "handle_dial_guarded"]
+            "lookup_respects_dns_type", "public_addresses_name_local", "handle_dial_guarded",
+            "dial_failure_rescored_in_every_state"]
 CONSTS = ["ADDR_MAX_ADDRESSES", "ADDR_CONNECTION_ESTABLISHED", "ADDR_CONNECTION_FAILURE_NEG",
           "ADDR_PUBLIC_ADDRESS_BONUS", "ADDR_FAILURE_IS_I32_MIN"]
 _A = "src/transport/manager/address.rs"
@@ -40,10 +41,17 @@ MANIFEST = {
             "constructors of AddressStore are modelled with the operating system / resolver as inputs, proved "
             "(listen_address_roundtrip, listener_binds_only_sockets, reported_dialable_and_local, local_dial_sound, "
             "lookup_respects_dns_type, public_addresses_name_local, handle_dial_guarded) and driven on the real code "
-            "(real sockets on loopback and the machine's interfaces; a scripted UDP name server for the real hickory resolver).",
+            "(real sockets on loopback and the machine's interfaces; a scripted UDP name server for the real hickory resolver). "
+            "Coverage round mgr2: dial_failure_rescored_in_every_state — over the FULL connection-manager model (Model/Manager/Dial.lean, "
+            "every PeerState incl. Connected with the dial parked as secondary record = the remote's connection won the "
+            "simultaneous-dial race, Disconnected with a dial record, Opening) a DialFailure re-scores exactly the failed address to "
+            "error_score(e) and touches no other record, for EVERY manager state; manager-level histories (c05 area: the real "
+            "TransportManager behind a scripted transport) run as extra cases with the address store printed before and after every "
+            "dial outcome, judged by an oracle on the scores (not-rescored / other-address-rescored).",
     "note": "Trusted: Lean kernel; axioms propext/Classical.choice/Quot.sound; the hand-written model and its tie (sampled "
             "differential runs through src/verif/c10.rs); multiaddr text parsing and IpNetwork::is_global outside the model "
-            "(attributes are data); PeerState reduced to Disconnected/Opening/Dialing (C05 owns the full machine).",
+            "(attributes are data); PeerState reduced to Disconnected/Opening/Dialing in the c10 area — the score updates of the "
+            "other states are driven and proved over C05's full machine (c05 area, extra cases).",
     "technique": "Lean 4 proof (invariants over all histories and all iteration orders) + model/implementation "
                  "correspondence check in checker mode",
     "design_ref": "DESIGN.md §7 C10",
@@ -57,7 +65,10 @@ RULE = ("seeded operation histories (cfg tcp/maxout/cap; listen; supported/parse
         "A-only/AAAA-only/both/empty/failing names and resolve of /dns,/dns4,/dns6 + socket + malformed addresses; "
         "hdial/hdialaddr through the handle, pubadd/pubrm, listening, bulk store constructors) run on the real code "
         "and on the Lean model; non-trivial = at least one address stored and "
-        "one refused or evicted; distinct = distinct (ops, observations) transcripts by SHA-256")
+        "one refused or evicted; distinct = distinct (ops, observations) transcripts by SHA-256; plus ~220 manager-level "
+        "histories in the c05 area (scripted shapes: dial outcome arriving in Dialing / Opening / Connected~Dialing (race) / "
+        "Disconnected-with-record / Connected+secondary, failure kinds t/a/n, open failures with partial error lists; and "
+        "closed-loop random histories) with `scores <peer>` around every outcome")
 TRUSTED_BASE = ["Lean 4.33 kernel", "axioms: propext, Classical.choice, Quot.sound only",
                 "hand-written models Model/Addr/*.lean tied to handle.rs/address.rs/mod.rs/listener.rs by this correspondence run",
                 "adapter /repo/src/verif/c10.rs, harness, verif.py, checks/c10.py, Driver/C10.lean (address text parser, "
@@ -74,7 +85,8 @@ ASSUMPTIONS = ["listen addresses are registered before addresses are learned (re
                "listen set)",
                "dial results reported by the TCP transport concern addresses handed to it by dial(peer) "
                "(DialFailure/OpenFailure carry the dialed address, ConnectionOpened/Established carry ip|dns + tcp of it)",
-               "PeerState beyond Disconnected/Opening/Dialing is outside this property (C05)",
+               "PeerState beyond Disconnected/Opening/Dialing is outside the c10 area; the re-scoring in those states is checked "
+               "in the c05 area (extra cases) while the scripted transport keeps the Transport contract",
                "local_addr() of a socket bound to (ip, p) is (ip, p') (p' = p unless p = 0); no interface address is the "
                "unspecified address (hypothesis of reported_dialable_and_local)",
                "TransportManager::dial_address (which also stores the dialed address) is property C05's; here only the "
@@ -986,6 +998,27 @@ def nontrivial(case, out):
     bad = any((op.startswith("bind") and any(x in op for x in ("/dns", "/udp", "/ws"))) or " err " in o or o.startswith("err")
               for op, o in zip(case, out))
     return good and bad
+
+
+# ---------------------------------------------------------------- manager-level histories (engine: extra_cases)
+# The c10 area reduces PeerState to Disconnected/Opening/Dialing. "Dial successes and failures re-score exactly the
+# address used" must hold in EVERY state the manager can be in when the outcome arrives (Connected with the dial parked
+# as secondary record — the simultaneous-dial race —, Disconnected with a dial record, Opening superseded by an inbound
+# connection, ...): those histories run in the c05 area (the real TransportManager behind a scripted transport, model
+# Model/Manager/Dial.lean) with `scores <p>` around every outcome, judged by `mgr_common.oracle_scores`.
+def extra_cases(rng, tier):
+    from . import mgr_common
+    yield "C05", list(mgr_common.gen_score_cases(rng, tier))
+
+
+def oracle_extra(xpid, case, out):
+    from . import mgr_common
+    return [dict(v, msg="(real TransportManager, c05 area) " + v["msg"]) for v in mgr_common.oracle_scores(case, out)]
+
+
+def stats_extra(xpid, case, out, acc):
+    from . import mgr_common
+    mgr_common.stats_scores(case, out, acc)
 
 
 def matches_known(k, v):
